@@ -141,7 +141,8 @@ package grpcmux
 
 //@ func (*grpcmux.blockedClientListener).unblock
 //@   nopanic [C08.total] [C20.nopanic]
-//@   nonblocking
+//@   bounded peer-dead [C09.timer]
+//@   wait send#1 waitCh has capacity 1 and knocks for one id are serialised by the dialling side (dialMutex held from knock to Dial; documented precondition: sequential establishment), so the buffer has room
 //@   requires b.waitCh != nil
 //@   modifies nothing
 
